@@ -524,9 +524,56 @@ def r7_cache_keys_complete(repo=None):
     return r
 
 
+def r8_package_never_opts_into_the_deleting_reader(repo=None):
+    """'reading never modifies or deletes anything on disk'.  DigitalMetadataReader has one documented exception that a caller must opt
+    into: with accept_empty=False it removes a properties file that has no fields yet (the recorded finding F10a).  No read path
+    of the package itself may take that option: every construction of the metadata reader inside the package passes
+    accept_empty=True or leaves the default - otherwise a mere query (read_metadata on an RF reader) deletes the properties
+    file of a channel whose writer exists but has not written yet, and the writer's first write then creates a file no reader
+    can use."""
+    r = Rule("C20.R8", "no read path of the package constructs the metadata reader with accept_empty=False")
+    n = 0
+    default_true = False
+    dm = pyfront.mod("digital_metadata", repo)
+    init = dm.functions.get("DigitalMetadataReader.__init__")
+    if init is None:
+        raise AnalysisError("DigitalMetadataReader.__init__ not found")
+    names = [a.arg for a in init.args.args]
+    if "accept_empty" in names:
+        k = names.index("accept_empty") - (len(names) - len(init.args.defaults))
+        default_true = k >= 0 and pyfront.const(init.args.defaults[k]) is True
+    if not default_true:
+        raise AnalysisError("DigitalMetadataReader.__init__: parameter accept_empty with default True not found")
+    pos = names.index("accept_empty") - 1      # position among the call's arguments (self excluded)
+    for mod_name in pyfront.MODULES:
+        m = pyfront.mod(mod_name, repo)
+        for q, f in m.functions.items():
+            if "<locals>" in q:
+                continue
+            for c in pyfront.walk_no_nested(f):
+                if isinstance(c, ast.Call) and (pyfront.call_name(c) or "").split(".")[-1] == "DigitalMetadataReader":
+                    n += 1
+                    a = pyfront.kwarg(c, "accept_empty", pos)
+                    site = "%s:%s %s `%s`" % (m.rel, c.lineno, q, norm(ast.unparse(c))[:70])
+                    if a is None or pyfront.const(a) is True:
+                        r.ok(site, "the deleting option is not taken (accept_empty %s)" % ("left at its default True" if a is None else "= True"))
+                    elif pyfront.const(a) is False:
+                        r.violation(m.rel, q, norm(ast.unparse(c))[:80], "the package's own read path constructs the metadata reader with "
+                                    "accept_empty=False: for a channel whose writer exists but has not written yet the constructor removes "
+                                    "dmd_properties.h5 - a query (read_metadata / get_digital_metadata) deletes a file of a valid tree, and "
+                                    "the writer's first write then re-creates a properties file without attributes that no reader can use",
+                                    line=c.lineno)
+                    else:
+                        raise AnalysisError("%s: accept_empty argument `%s` of the metadata reader is not a constant" % (q, norm(ast.unparse(a))[:40]))
+    if n < 2:
+        raise AnalysisError("constructions of DigitalMetadataReader in the package not found (2 confirmed on the reference tree, found %d)" % n)
+    r.guard(2)
+    return r
+
+
 def rules(repo=None):
     from . import c12
-    return [lambda: r1_read_roles(repo), lambda: r2_write_closed_on_return(repo), lambda: r3_stateless_reader(repo),
+    return [lambda: r8_package_never_opts_into_the_deleting_reader(repo), lambda: r1_read_roles(repo), lambda: r2_write_closed_on_return(repo), lambda: r3_stateless_reader(repo),
             lambda: r4_latest_is_ffill(repo), lambda: c12.r2_range_filter(repo, rid="C20.R5"),
             lambda: c12.r3_numeric_key_order(repo, rid="C20.R6"), lambda: r7_cache_keys_complete(repo)]
 
@@ -542,8 +589,9 @@ EXPLANATION = (
     'read_latest = get_bounds + read(last, ffill). R5/R6: the forward-fill range filter and numeric key ordering it '
     'depends on (shared with C12). R7: every memoising reader method keys its memo by all arguments the memoised value '
     'depends on (def-use slice). R7 also: the dependence closure of a memoised value is cut at the names of its key, and '
-    'a value chosen by a loop under a file-system probe needs the chosen loop element in the key. Does NOT decide HDF5 '
-    'visibility.')
+    'a value chosen by a loop under a file-system probe needs the chosen loop element in the key. R8: every construction '
+    'of DigitalMetadataReader inside the package leaves accept_empty at its default True or passes True (the deleting '
+    'option of the recorded finding F10a is never taken by a read path of the package). Does NOT decide HDF5 visibility.')
 TECHNIQUE = ('Python ast; package call graph with provenance partition of paths; context-manager/generator exhaustion; store-on-self table')
 ASSUMPTIONS = ["zip() pulls from its first iterable first", "h5py's default file mode is 'r'",
                "the mutator table (vp.pycalls.MUTATORS) is complete for the standard library calls this package uses"]
